@@ -216,7 +216,12 @@ def features(case):
 def observe(case):
     from .. import detect as D
     try:
-        out = {"exc": "", "v": D.detect(case["scene"], case["rules"], case["scale"])}
+        earlier = None
+        if case.get("after_another_record"):
+            # the second record of a run: the same rule objects were used on a record with equally named genes before
+            hits = case["scene"]["hits"]
+            earlier = hits[1:] + hits[:1]
+        out = {"exc": "", "v": D.detect(case["scene"], case["rules"], case["scale"], earlier_hits=earlier)}
     except Exception as err:  # pylint: disable=broad-except
         out = {"exc": type(err).__name__ + ":" + str(err)[:60].replace('"', "'"), "v": []}
     return {"id": case["id"], "op": "detect", "scene": case["scene"], "rules": case["rules"], "out": out}
@@ -228,7 +233,9 @@ def observe_many(cases):
 
 def call_text(case):
     return (f"harness.detect.detect(scene={case['scene']}, rules=<{[ (r['name'], r['cutoff'], r['nbhd'], r['sup']) for r in case['rules']]}"
-            f" see replay file>, scale={case['scale']})  # -> detect_protoclusters_and_signatures(record, ruleset)")
+            f" see replay file>, scale={case['scale']}"
+            + (", earlier_hits=<the hits of the scene shifted by one gene>" if case.get("after_another_record") else "")
+            + ")  # -> detect_protoclusters_and_signatures(record, ruleset)")
 
 
 def build_cases(ctx, rng, rules, genes):
@@ -268,12 +275,15 @@ def run(ctx):
     cases = build_cases(ctx, rng, rules, genes)
     for idx, case in enumerate(cases):
         case["id"] = idx
+        # every third case with an EXTENDERS rule is the second record of a run (rule objects already used once)
+        case["after_another_record"] = idx % 3 == 0 and any(r["hasExt"] for r in case["rules"])
     samples = {}
 
     def describe(case, event):
         if event["out"]["v"]:
             ctx.nontrivial_case(case["id"])
-        entry = {"op": "detect", "input": {"scene": case["scene"], "rules": case["rules"], "scale": case["scale"]},
+        entry = {"op": "detect", "input": {"scene": case["scene"], "rules": case["rules"], "scale": case["scale"],
+                                           "after_another_record": case["after_another_record"]},
                  "call": call_text(case), "observed": event["out"], "features": features(case), "sampled": True}
         if case["id"] in (0, len(cases) // 2, len(cases) - 1):
             samples[case["id"]] = {"scene": case["scene"], "rules": [(r["name"], r["cutoff"], r["nbhd"], r["sup"]) for r in case["rules"]],
